@@ -32,8 +32,8 @@ PROPERTY = {
     "trusted_base": ["CPython, gcc; neither back end is taken as the reference: a difference is a violation whichever side is wrong "
                      "(a defect shared by both -- e.g. in the lifter -- is not seen here); generator and comparison are written in "
                      "props/jitrun.py / props/C20.py"],
-    "assumptions": ["x86-32 and ARM (little endian) guests (the other architectures' JitCore extensions are not built by the harness); the ARM "
-                    "family has ~40 instruction forms, no faults", "LLVM back end "
+    "assumptions": ["x86-32, ARM and AArch64 (little endian) guests (the other architectures' JitCore extensions are not built by the harness); "
+                    "the ARM / AArch64 families have ~40 / ~55 instruction forms, no faults", "LLVM back end "
                     "not available (no llvmlite)", "seeded family: 48 quick / 600 thorough programs"],
 }
 
@@ -291,6 +291,153 @@ class BackendCasesArm(BoundedContract):
         return (True, "", True)
 
 
+# AArch64 (little endian) -----------------------------------------------------------------------------------------------------------
+
+A64_POOL = ["ADD X%d, X%d, X%d", "ADDS X%d, X%d, X%d", "SUB X%d, X%d, 0x10", "SUBS W%d, W%d, 0x10", "AND X%d, X%d, X%d", "ANDS W%d, W%d, W%d",
+            "ORR X%d, X%d, 0xFF", "EOR X%d, X%d, X%d", "MOV X%d, X%d", "CMP X%d, X%d", "CMP W%d, 0x5", "TST X%d, 0x1", "MADD X%d, X%d, X%d, X%d",
+            "MSUB W%d, W%d, W%d, W%d", "LSL X%d, X%d, X%d", "ADD X%d, X%d, X%d LSL 0x2", "SUB W%d, W%d, W%d ASR 0x3", "ADC X%d, X%d, X%d",
+            "ADCS W%d, W%d, W%d", "SBC X%d, X%d, X%d", "SBCS X%d, X%d, X%d", "NEG X%d, X%d", "MVN X%d, X%d", "BIC X%d, X%d, X%d",
+            "ORN W%d, W%d, W%d", "EON X%d, X%d, X%d", "CSEL X%d, X%d, X%d, EQ", "CSINC W%d, W%d, W%d, NE", "CSET W%d, LT", "CSNEG X%d, X%d, X%d, GE",
+            "CSEL X%d, X%d, X%d, VS", "CLZ X%d, X%d", "REV16 W%d, W%d", "EXTR X%d, X%d, X%d, 0x7", "UMULH X%d, X%d, X%d",
+            "SMULH X%d, X%d, X%d", "UMADDL X%d, W%d, W%d, X%d", "CCMP X%d, X%d, 0x4, EQ", "MOVZ W%d, 0x1234", "MOVN X%d, 0x12",
+            "ORR X%d, X%d, 0x1\n    UDIV X%d, X%d, X%d", "ORR W%d, W%d, 0x1\n    SDIV W%d, W%d, W%d"]
+A64_MEM = ["LDR X%d, [X11, 0x%x]", "STR X%d, [X11, 0x%x]", "LDR W%d, [X11, 0x%x]", "STR W%d, [X11, 0x%x]", "LDRB W%d, [X11, 0x%x]", "STRB W%d, [X11, 0x%x]",
+           "LDRH W%d, [X11, 0x%x]", "STRH W%d, [X11, 0x%x]", "LDRSB X%d, [X11, 0x%x]", "LDRSW X%d, [X11, 0x%x]"]
+
+
+def a64_instr(rng):
+    if rng.random() < 0.25:
+        t = rng.choice(A64_MEM)
+        off = rng.randrange(0, 48)
+        m = t.split()[0]
+        if m in ("LDR", "STR"):
+            off &= ~7 if " X%d" in t[:8] else ~3
+        elif "H" in m:
+            off &= ~1
+        elif m == "LDRSW":
+            off &= ~3
+        return t % (rng.randrange(0, 9), off)
+    t = rng.choice(A64_POOL)
+    if "DIV" in t:
+        d = rng.randrange(0, 9)
+        return t % (d, d, rng.randrange(0, 9), rng.randrange(0, 9), d)
+    return t % tuple(rng.randrange(0, 9) for _ in range(t.count("%d")))
+
+
+def a64_program(rng):
+    lines = ["main:", "    MOV X12, LR"]
+    n = rng.randint(2, 5)
+    for i in range(n):
+        lines.append("g%d:" % i)
+        lines += ["    " + a64_instr(rng) for _ in range(rng.randint(4, 12))]
+        if rng.random() < 0.3:
+            lines.append("    BL sub")
+        if i + 1 < n and rng.random() < 0.7:
+            k = rng.random()
+            if k < 0.6:
+                lines.append("    CMP X%d, X%d" % (rng.randrange(9), rng.randrange(9)))
+                lines.append("    B.%s g%d" % (rng.choice(("EQ", "NE", "CS", "CC", "MI", "HI", "GE", "LT", "GT", "LE")), rng.randrange(i + 1, n)))
+            elif k < 0.8:
+                lines.append("    CBZ X%d, g%d" % (rng.randrange(9), rng.randrange(i + 1, n)))
+            else:
+                lines.append("    CBNZ W%d, g%d" % (rng.randrange(9), rng.randrange(i + 1, n)))
+    lines += ["    CMP X0, X1", "    RET X12", "sub:", "    ADD X9, X9, 0x3", "    EOR X10, X10, X9", "    RET LR"]
+    return "\n".join(lines) + "\n"
+
+
+class BackendCasesA64(BoundedContract):
+    BOUND = "seeded family of AArch64 (little endian) programs from a pool of ~55 instruction forms (props/C20.py)"
+    CASE_SECONDS = 300
+
+    def funcs(self):
+        jitrun.build_exts()
+        from miasm.arch.aarch64.sem import Lifter_Aarch64l
+        from miasm.jitter.jitcore_python import JitCore_Python
+        return [Lifter_Aarch64l.get_ir, JitCore_Python.add_block]
+
+    def cases(self):
+        return list(range(32 if self.tier == "quick" else 400))
+
+    def gen(self, case):
+        rng = random.Random(20640 + case)
+        return rng, a64_program(rng)
+
+    def show(self, case):
+        return "AArch64 program #%d: %s" % (case, jitrun.show_program(self.gen(case)[1]))
+
+    def check(self, case):
+        b = jitrun.build_exts()
+        from miasm.analysis.machine import Machine
+        from miasm.arch.aarch64.arch import mn_aarch64
+        from miasm.core import asmblock, parse_asm
+        from miasm.core.interval import interval
+        from miasm.core.locationdb import LocationDB
+        from miasm.jitter.csts import PAGE_READ, PAGE_WRITE
+        rng, text = self.gen(case)
+        loc_db = LocationDB()
+        try:
+            asmcfg = parse_asm.parse_txt(mn_aarch64, "l", text, loc_db)
+            loc_db.set_location_offset(loc_db.get_name_location("main"), jitrun.CODE)
+            patches = asmblock.asm_resolve_final(mn_aarch64, asmcfg, interval([(jitrun.CODE, jitrun.CODE + 0xF00)]))
+        except Exception as ex:     # noqa
+            return (False, "harness: the AArch64 program does not assemble (%s: %s)" % (type(ex).__name__, str(ex)[:120]), True)
+        code = bytearray(0x1000)
+        for o, d in patches.items():
+            code[o - jitrun.CODE:o - jitrun.CODE + len(d)] = d
+        regs = dict(("X%d" % i, rng.choice((0, 1, 0xFFFFFFFF, 0x80000000, 0xFFFFFFFFFFFFFFFF, 0x8000000000000000, 0x7FFFFFFFFFFFFFFF,
+                                             rng.getrandbits(64), rng.getrandbits(32), rng.getrandbits(8)))) for i in range(11))
+        flags = dict((f, rng.getrandbits(1)) for f in ("zf", "nf", "of", "cf"))
+        data = bytes(rng.getrandbits(8) for _ in range(0x40))
+        results = []
+        for backend, maxline in (("python", 50), ("gcc", 50), ("gcc", rng.choice((1, 2, 3)))):
+            j = Machine("aarch64l").jitter(LocationDB(), backend)
+            if not sys.modules["miasm.jitter.arch.JitCore_aarch64"].__file__.startswith(b["dir"]):
+                return (False, "harness: the AArch64 jitter does not use the extension compiled from the tree", True)
+            if backend == "gcc":
+                j.jit.libs = list(b["libs_aarch64"])
+                j.jit.tempdir = b["cache"]
+            j.jit.set_options(jit_maxline=maxline)
+            j.vm.add_memory_page(jitrun.CODE, PAGE_READ | PAGE_WRITE, bytes(code), "code")
+            j.vm.add_memory_page(jitrun.DATA, PAGE_READ | PAGE_WRITE, b"\x00" * 0x100 + data + b"\x00" * (0x1000 - 0x100 - len(data)), "data")
+            j.init_stack()
+            for r, v in regs.items():
+                setattr(j.cpu, r, v)
+            for f, v in flags.items():
+                setattr(j.cpu, f, v)
+            j.cpu.X11 = jitrun.DATA + 0x100
+            j.cpu.LR = jitrun.END
+            j.add_breakpoint(jitrun.END, lambda jj: False)
+            steps = [0]
+
+            def cb(jj):
+                steps[0] += 1
+                return steps[0] < 2000
+            j.exec_cb = cb
+            try:
+                j.init_run(jitrun.CODE)
+                res = j.continue_run()
+            except Exception as ex:     # noqa
+                import traceback
+                tb = traceback.extract_tb(ex.__traceback__)[-1]
+                return (False, "%s back end (jit_maxline %d): the run raises %s: %s (%s:%d)" % (backend, maxline, type(ex).__name__, str(ex)[:160],
+                                                                                            tb.filename.split("/")[-1], tb.lineno), True)
+            st = {"pc": j.pc, "res": res, "exc": (j.vm.get_exception(), j.cpu.get_exception()), "data": j.vm.get_mem(jitrun.DATA, 0x1000)}
+            for r in ["X%d" % i for i in range(30)] + ["LR", "SP", "zf", "nf", "of", "cf"]:
+                st[r] = getattr(j.cpu, r)
+            results.append((backend, maxline, st))
+        b0, m0, s0 = results[0]
+        for b1, m1, s1 in results[1:]:
+            for k in s0:
+                if s0[k] != s1[k]:
+                    if k == "data":
+                        o = next(o for o in range(0x1000) if s0[k][o] != s1[k][o])
+                        return (False, "data byte %#x = %#04x under %s (jit_maxline %d), %#04x under %s" % (jitrun.DATA + o, s1[k][o], b1, m1, s0[k][o], b0), True)
+                    return (False, "%s = %r under %s (jit_maxline %d), %r under %s" % (k, s1[k] if not isinstance(s1[k], int) else hex(s1[k]), b1, m1,
+                                                                                       s0[k] if not isinstance(s0[k], int) else hex(s0[k]), b0), True)
+        return (True, "", True)
+
+
 def targets(tier):
-    return chunked(BackendCases, "C20/backends", 16, tier) + chunked(BackendCasesArm, "C20/backends-arm", 16, tier)
+    return (chunked(BackendCases, "C20/backends", 16, tier) + chunked(BackendCasesArm, "C20/backends-arm", 16, tier) +
+            chunked(BackendCasesA64, "C20/backends-aarch64", 16, tier))
 
